@@ -15,13 +15,13 @@ import (
 )
 
 type Clause struct {
-	Kind  string   // requires, ensures, invariant, assert, assume
-	Tags  []string // property ids; empty = every property the unit serves
-	Name  string
-	Text  string
-	Expr  ast.Expr
-	Line  int
-	File  string
+	Kind    string   // requires, ensures, invariant, assert, assume
+	Tags    []string // property ids; empty = every property the unit serves
+	Name    string
+	Text    string
+	Expr    ast.Expr
+	Line    int
+	File    string
 	Assumed bool // ensures clause that is assumed at call sites but not verified on the body (listed; backed by a bounded stand-in)
 }
 
@@ -45,7 +45,7 @@ type LoopContract struct {
 
 type GhostVar struct {
 	Name string
-	Sort string // int, real, bool
+	Sort string   // int, real, bool
 	Init ast.Expr // optional initial value at unit entry
 }
 
@@ -69,40 +69,40 @@ type AtStmt struct {
 }
 
 type UnitContract struct {
-	AtStmts []*AtStmt
-	PkgDir   string
-	Func     string
-	Region   string // "" for whole function
-	From, To string // anchors (statement text prefixes)
-	Within   string // optional: the anchors are looked for only inside the statement this anchor matches
-	FromExcl bool   // region starts AFTER the statement anchored by From (header keyword `after` / `between`)
-	ToExcl   bool   // region ends BEFORE the statement anchored by To (header keyword `before` / `between … and`)
-	Requires []*Clause
-	Ensures  []*Clause
+	AtStmts     []*AtStmt
+	PkgDir      string
+	Func        string
+	Region      string // "" for whole function
+	From, To    string // anchors (statement text prefixes)
+	Within      string // optional: the anchors are looked for only inside the statement this anchor matches
+	FromExcl    bool   // region starts AFTER the statement anchored by From (header keyword `after` / `between`)
+	ToExcl      bool   // region ends BEFORE the statement anchored by To (header keyword `before` / `between … and`)
+	Requires    []*Clause
+	Ensures     []*Clause
 	ExitEnsures []*Clause // must hold at every exit (return/break/continue) of a region, too
 	RetEnsures  []*Clause // must hold at every return statement inside a region (result0, result1, ... = the returned values)
-	Modifies []string
-	HasMod   bool
-	Macros   map[string]*Macro
-	Cases    []*Clause // case-split hints: every obligation may be proved separately under e and under !e
-	Loops    map[int]*LoopContract
-	ALoops   []*LoopContract // loops bound by anchor text
-	Safety   map[string][]string // kind -> tags  (div, index, uint, nofatal)
-	Inline   bool
-	Trusted  bool // contract is assumed, body not verified (listed in assumptions)
-	AbortsOnly string // the callee aborts the process only in the stated situation, which is outside the reported error classes (assumption, listed)
-	Ghosts   []GhostVar
-	AtCalls  []*AtCall
-	Tags     map[string]bool // all tags mentioned
-	Line     int
-	File     string
-	Lemma    bool
-	Vars     []GhostVar // lemma variables
-	UnrollLoops int     // >0: loops of the unit without a contract are unrolled up to this many iterations
-	Opaque   []string   // callee names to treat as opaque (havoc) even if they have contracts
-	Fresh    []string   // local variable names havoced at region entry are implicit; listed for docs
-	FPChecks []*FPCheck // exhaustive concrete evaluation of rounding-critical statements (fpx.go)
-	As       map[string]string // "serves C09 as C08": for property C09 this unit is verified with the clause selection of C08
+	Modifies    []string
+	HasMod      bool
+	Macros      map[string]*Macro
+	Cases       []*Clause // case-split hints: every obligation may be proved separately under e and under !e
+	Loops       map[int]*LoopContract
+	ALoops      []*LoopContract     // loops bound by anchor text
+	Safety      map[string][]string // kind -> tags  (div, index, uint, nofatal)
+	Inline      bool
+	Trusted     bool   // contract is assumed, body not verified (listed in assumptions)
+	AbortsOnly  string // the callee aborts the process only in the stated situation, which is outside the reported error classes (assumption, listed)
+	Ghosts      []GhostVar
+	AtCalls     []*AtCall
+	Tags        map[string]bool // all tags mentioned
+	Line        int
+	File        string
+	Lemma       bool
+	Vars        []GhostVar        // lemma variables
+	UnrollLoops int               // >0: loops of the unit without a contract are unrolled up to this many iterations
+	Opaque      []string          // callee names to treat as opaque (havoc) even if they have contracts
+	Fresh       []string          // local variable names havoced at region entry are implicit; listed for docs
+	FPChecks    []*FPCheck        // exhaustive concrete evaluation of rounding-critical statements (fpx.go)
+	As          map[string]string // "serves C09 as C08": for property C09 this unit is verified with the clause selection of C08
 }
 
 func (u *UnitContract) ID() string {
